@@ -15,8 +15,9 @@ CHECK = "/verif/sim/check.py"
 TEXT = {
     "C01": ("exploration", "Seeded simulation of multi-signer histories behind a Byzantine channel; every verify_signable verdict is "
             "compared (soundness direction, on every input) with the number of distinct authorised keys whose entry is backed by a "
-            "real signing event in the run's ledger, tie-broken by an independent RFC 8032 verifier.",
-            "No interleaving exists inside the verifier; the schedule dimension is the order and partial completion of signing, "
+            "real signing event in the run's ledger, tie-broken by an independent RFC 8032 verifier; plus fail-closed-under-faults legs (exception at a random line inside the "
+            "verifier, stdout writes failing with ENOSPC/EPIPE/EIO/closed: may reject, must never accept) and a baton-scheduled thread stage.",
+            "No interleaving exists inside the verifier itself; the schedule dimension is the order and partial completion of signing, "
             "corruption, mis-filing, replay and verification events around it. Assumes ed25519 unforgeability.", "sec. 7 C01"),
     "C02": ("exploration", "Same worlds read in the completeness direction: whenever the ledger says threshold distinct authorised keys "
             "validly signed, the call must return, for every signer implementation (library raw, library GPG path over SimGPG, "
